@@ -271,6 +271,39 @@ func (f *Frame) run(entryReach string, st *State) {
 				f.vals[phi] = v
 			}
 		}
+		// loop exit assertions: b is outside loop L but has a predecessor inside it
+		for _, l := range f.loopList {
+			if l.spec == nil || len(l.spec.Exits) == 0 || l.body[b] {
+				continue
+			}
+			isExit := false
+			for _, p := range b.Preds {
+				if l.body[p] && processed[p] {
+					isExit = true
+				}
+			}
+			if !isExit {
+				continue
+			}
+			for _, ex := range l.spec.Exits {
+				env := f.specEnv(f.curState, f.entry).asGoal()
+				env.at = b
+				env.loopPre = l.preSt
+				g.beginGoal()
+				t := env.evalBool(ex.E)
+				pos := token.Position{}
+				if len(b.Instrs) > 0 {
+					pos = f.pos(b.Instrs[0].Pos())
+				}
+				o := g.oblige("loop-exit", f.curReach, t, pos, fmt.Sprintf("after loop %d of %s", l.ordinal, f.fn.Name()))
+				g.endGoal()
+				o.Clause = ex.Text
+				env2 := f.specEnv(f.curState, f.entry).asAssume(f.curReach)
+				env2.at = b
+				env2.loopPre = l.preSt
+				g.assume(f.curReach, env2.evalBool(ex.E))
+			}
+		}
 
 		f.execBlock(b)
 		f.outReach[b] = f.curReach
